@@ -354,13 +354,13 @@ theorem drawnCapture_not_mate (b : Board) (hwf : b.WF = true) (mv : Move)
   exact insufficient_not_mate _ (Props.C02.move_WF b hwf mv hl) hd.2
 
 /-- **C12, found** — without side condition -/
-theorem mate1_found_full (b : Board) (hwf : b.WF = true) (tf : ThreeFold) (k prev : Nat)
-    (hf : firstPassFinished b tf k = true)
+theorem mate1_found_full (pos : Bool) (b : Board) (hwf : b.WF = true) (tf : ThreeFold) (k prev : Nat)
+    (hf : firstPassFinished pos b tf k = true)
     (hm : ∃ mv ∈ Props.C10.movesOf (MoveGen.legals b), isMateMove b mv = true) :
-    ∃ mv, (search b tf k prev).move = some mv ∧ isMateMove b mv = true ∧
-      (search b tf k prev).score = mateInOne b.turn := by
+    ∃ mv, (search pos b tf k prev).move = some mv ∧ isMateMove b mv = true ∧
+      (search pos b tf k prev).score = mateInOne b.turn := by
   obtain ⟨x, hxL, hxm⟩ := hm
-  apply mate1_found b hwf tf k prev hf
+  apply mate1_found pos b hwf tf k prev hf
   refine ⟨x, hxL, hxm, ?_⟩
   cases hd : drawnCapture b x with
   | false => rfl
